@@ -4,4 +4,5 @@
 #![allow(dead_code, unused_variables, clippy::all)]
 
 pub mod c38;
+pub mod inline;
 pub mod reach;
